@@ -118,7 +118,7 @@ package resharing
 //@ func (*DGRound2Message1).UnmarshalNTilde
 //@   props C06
 //@   requires m != nil
-//@   ensures result != nil && fresh(result) && val(result) >= 0
+//@   ensures result != nil && fresh(result) && val(result) >= 0 && val(result) == beint(bytes(m.NTilde))
 //@ func (*DGRound2Message1).UnmarshalH1
 //@   props C06
 //@   requires m != nil
@@ -182,3 +182,68 @@ package resharing
 //@   modifies *
 //@   ensures [C04.old-share-intact-before-the-final-round] ecShareIntact(round)
 //@   loop 0 invariant rsNew(round.ReSharingParameters) && round.started && ecShareIntact(round)
+
+// ----- round_4_new_step_2.go -----
+//@ func (*DGRound2Message1).UnmarshalModProof
+//@   props C06 C10
+//@   requires m != nil
+//@   ensures result1 != nil ==> result0 == nil
+//@   ensures result1 == nil ==> (result0 != nil && fresh(result0) && (forall k in 0..80 :: (result0.X[k] != nil && result0.Z[k] != nil && val(result0.X[k]) >= 0 && val(result0.Z[k]) >= 0)))
+
+//@ define ecRs1full(m) = (!isnil(m) && istype(msgcontent(m), "*ecdsa/resharing.DGRound1Message") && cast(msgcontent(m), "*ecdsa/resharing.DGRound1Message") != nil)
+//@ define ecRs2m1(m) = (!isnil(m) && istype(msgcontent(m), "*ecdsa/resharing.DGRound2Message1") && cast(msgcontent(m), "*ecdsa/resharing.DGRound2Message1") != nil && msgfrom(m) != nil)
+//@ define ecRs3m1(m) = (!isnil(m) && istype(msgcontent(m), "*ecdsa/resharing.DGRound3Message1") && cast(msgcontent(m), "*ecdsa/resharing.DGRound3Message1") != nil)
+//@ define ecRs3m2(m) = (!isnil(m) && istype(msgcontent(m), "*ecdsa/resharing.DGRound3Message2") && cast(msgcontent(m), "*ecdsa/resharing.DGRound3Message2") != nil && len(cast(msgcontent(m), "*ecdsa/resharing.DGRound3Message2").VDecommitment) <= 8192)
+//@ define ecRs4row(round, s) = (len(s) == round.ReSharingParameters.newThreshold + 1 && (forall c in 0..len(s) :: (validPoint(s[c]) && s[c].curve == round.ReSharingParameters.Parameters.ec)))
+
+// the Paillier-modulus proof goroutine and the two DLN callbacks: a failing proof records exactly the sender of the message
+//@ func (*round4).Start$1
+//@   props C06 C05
+//@   requires round != nil && round.round3 != nil && round.round3.round2 != nil && round.round3.round2.round1 != nil && round.round3.round2.round1.base != nil && round.ReSharingParameters != nil && round.ReSharingParameters.Parameters != nil && round.temp != nil && len(round.temp.ssid) <= 4096
+//@   requires 0 <= j && j < len(paiProofCulprits) && !isnil(msg) && r2msg1 != nil && paiPK != nil && paiPK.N != nil && wg != nil
+//@   modifies paiProofCulprits[*]
+//@   ensures [C05.a-failing-modulus-proof-blames-its-sender] forall k in 0..len(paiProofCulprits) :: (paiProofCulprits[k] == old(paiProofCulprits[k]) || (k == j && paiProofCulprits[k] == msgfrom(msg)))
+//@ func (*round4).Start$2
+//@   props C06 C05
+//@   requires 0 <= _j && _j < len(dlnProof1FailCulprits) && !isnil(_msg) && wg != nil
+//@   modifies dlnProof1FailCulprits[*]
+//@   ensures [C05.a-failing-dln-proof-blames-its-sender] forall k in 0..len(dlnProof1FailCulprits) :: (dlnProof1FailCulprits[k] == old(dlnProof1FailCulprits[k]) || (k == _j && dlnProof1FailCulprits[k] == msgfrom(_msg)))
+//@ func (*round4).Start$3
+//@   props C06 C05
+//@   requires 0 <= _j && _j < len(dlnProof2FailCulprits) && !isnil(_msg) && wg != nil
+//@   modifies dlnProof2FailCulprits[*]
+//@   ensures [C05.a-failing-dln-proof-blames-its-sender] forall k in 0..len(dlnProof2FailCulprits) :: (dlnProof2FailCulprits[k] == old(dlnProof2FailCulprits[k]) || (k == _j && dlnProof2FailCulprits[k] == msgfrom(_msg)))
+
+// the ring-Pedersen modulus announced by a new member (checked to have 2048 bits before it is stored)
+//@ define rsNT(m) = beint(bytes(cast(msgcontent(m), "*ecdsa/resharing.DGRound2Message1").NTilde))
+//@ define rs4NT(round, i) = (forall k in 0..rsNewN(round) :: (k != i ==> (round.save.NTildej[k] != nil && val(round.save.NTildej[k]) > 0 && bitlen(val(round.save.NTildej[k])) == 2048 && round.save.H1j[k] != nil && round.save.H2j[k] != nil)))
+//@ func (*round4).Start
+//@   deadpoints 2
+//@   note dead: the `len(paiProofCulprits) > 0` return after the new-committee loop (nothing is appended any more since fix 95e34fe returns at the first bad sum)
+//@   props C06 C05 C04
+//@   requires round != nil && round.round3 != nil && round.round3.round2 != nil && round.round3.round2.round1 != nil && round.round3.round2.round1.base != nil && ecRsWF(round) && ecRsIdx(round)
+//@   requires [caller-config] round.ReSharingParameters.Parameters.concurrency > 0 && round.ReSharingParameters.Parameters.concurrency <= 1048576
+//@   requires [rounds-1-to-3-complete] rsNew(round.ReSharingParameters) ==> (rsOldN(round) >= 1 && (forall j in 0..rsOldN(round) :: (ecRs1full(round.temp.dgRound1Messages[j]) && ecRs3m1(round.temp.dgRound3Message1s[j]) && ecRs3m2(round.temp.dgRound3Message2s[j]))) && (forall j in 0..rsNewN(round) :: ecRs2m1(round.temp.dgRound2Message1s[j])))
+//@   requires [new-member-state] rsNew(round.ReSharingParameters) ==> (len(round.temp.ssid) <= 4096 && round.save.ECDSAPub != nil && wfPoint(round.save.ECDSAPub) && len(round.save.NTildej) == rsNewN(round) && len(round.save.H1j) == rsNewN(round) && len(round.save.H2j) == rsNewN(round) && arr(round.save.NTildej) != arr(round.save.H1j) && arr(round.save.NTildej) != arr(round.save.H2j) && arr(round.save.H1j) != arr(round.save.H2j) && round.save.LocalPreParams.PaillierSK != nil && round.save.LocalPreParams.PaillierSK.PublicKey.N != nil && val(round.save.LocalPreParams.PaillierSK.PublicKey.N) > 0 && bitlen(val(round.save.LocalPreParams.PaillierSK.PublicKey.N)) <= 2100 && round.save.LocalPreParams.PaillierSK.P != nil && round.save.LocalPreParams.PaillierSK.Q != nil && val(round.save.LocalPreParams.PaillierSK.P) >= 0 && val(round.save.LocalPreParams.PaillierSK.Q) >= 0 && round.save.NTildej[round.ReSharingParameters.Parameters.partyID.Index] != nil && round.save.H1j[round.ReSharingParameters.Parameters.partyID.Index] != nil && round.save.H2j[round.ReSharingParameters.Parameters.partyID.Index] != nil)
+//@   requires [new-ids-nonzero-modulo-the-order] forall k in 0..rsNewN(round) :: keyOf(round.ReSharingParameters.newParties.partyIDs[k]) % secpN != 0
+//@   modifies round.number, round.started, round.oldOK[*], round.newOK[*], round.save.NTildej[*], round.save.H1j[*], round.save.H2j[*], round.temp.newXi, round.temp.newKs, round.temp.newBigXjs, round.temp.dgRound4Message2s[*], sent(round.out), allfield("crypto.ECPoint", "curve")
+//@   ensures [C04.old-share-intact-before-the-final-round] ecShareIntact(round)
+//@   loop 0 invariant rsNew(round.ReSharingParameters) && round.started && fresh(paiProofCulprits) && fresh(dlnProof1FailCulprits) && fresh(dlnProof2FailCulprits) && len(paiProofCulprits) == rsNewN(round) && len(dlnProof1FailCulprits) == rsNewN(round) && len(dlnProof2FailCulprits) == rsNewN(round) && arr(paiProofCulprits) != arr(dlnProof1FailCulprits) && arr(paiProofCulprits) != arr(dlnProof2FailCulprits) && arr(dlnProof1FailCulprits) != arr(dlnProof2FailCulprits) && dlnVerifier != nil && wg != nil && h1H2Map != nil && fresh(h1H2Map) && i == round.ReSharingParameters.Parameters.partyID.Index
+//@   loop 0 invariant forall k in 0..$iter :: bitlen(rsNT(round.temp.dgRound2Message1s[k])) == 2048
+//@   loop 1 invariant rsNew(round.ReSharingParameters) && round.started && i == round.ReSharingParameters.Parameters.partyID.Index && (forall k in 0..rsNewN(round) :: bitlen(rsNT(round.temp.dgRound2Message1s[k])) == 2048)
+//@   loop 2 invariant rsNew(round.ReSharingParameters) && round.started && i == round.ReSharingParameters.Parameters.partyID.Index && (forall k in 0..rsNewN(round) :: bitlen(rsNT(round.temp.dgRound2Message1s[k])) == 2048)
+//@   loop 2 invariant forall k in 0..$iter :: (k != i ==> (round.save.NTildej[k] != nil && val(round.save.NTildej[k]) > 0 && bitlen(val(round.save.NTildej[k])) == 2048 && round.save.H1j[k] != nil && round.save.H2j[k] != nil))
+//@   loop 3 invariant rs4NT(round, i) && round.save.ECDSAPub != nil && wfPoint(round.save.ECDSAPub) && rsNew(round.ReSharingParameters) && round.started && 0 <= j && j <= len(vjc) && len(vjc) == rsOldN(round) && fresh(vjc) && newXi != nil && modQ != nil && !fresh(modQ) && val(modQ) == secpN && ecShareIntact(round) && i == round.ReSharingParameters.Parameters.partyID.Index
+//@   loop 3 invariant forall k in 0..j :: ecRs4row(round, vjc[k])
+//@   loop 4 invariant rs4NT(round, i) && round.save.ECDSAPub != nil && wfPoint(round.save.ECDSAPub) && rsNew(round.ReSharingParameters) && round.started && 0 <= c && c <= round.ReSharingParameters.newThreshold + 1 && len(vjc) == rsOldN(round) && fresh(vjc) && len(Vc) == round.ReSharingParameters.newThreshold + 1 && fresh(Vc) && newXi != nil && modQ != nil && !fresh(modQ) && val(modQ) == secpN && ecShareIntact(round) && i == round.ReSharingParameters.Parameters.partyID.Index
+//@   loop 4 invariant (forall k in 0..len(vjc) :: ecRs4row(round, vjc[k])) && (forall k in 0..len(vjc) :: arr(vjc[k]) != arr(Vc))
+//@   loop 4 invariant forall k in 0..c :: (validPoint(Vc[k]) && Vc[k].curve == round.ReSharingParameters.Parameters.ec)
+//@   loop 5 invariant rs4NT(round, i) && round.save.ECDSAPub != nil && wfPoint(round.save.ECDSAPub) && rsNew(round.ReSharingParameters) && round.started && 0 <= c && c <= round.ReSharingParameters.newThreshold && 1 <= j && j <= len(vjc) && len(vjc) == rsOldN(round) && fresh(vjc) && len(Vc) == round.ReSharingParameters.newThreshold + 1 && fresh(Vc) && newXi != nil && modQ != nil && !fresh(modQ) && val(modQ) == secpN && ecShareIntact(round) && i == round.ReSharingParameters.Parameters.partyID.Index
+//@   loop 5 invariant (forall k in 0..len(vjc) :: ecRs4row(round, vjc[k])) && (forall k in 0..len(vjc) :: arr(vjc[k]) != arr(Vc))
+//@   loop 5 invariant forall k in 0..c+1 :: (validPoint(Vc[k]) && Vc[k].curve == round.ReSharingParameters.Parameters.ec)
+//@   loop 6 invariant rs4NT(round, i) && wfIDs(round.ReSharingParameters.Parameters.parties.partyIDs) && wfIDs(round.ReSharingParameters.newParties.partyIDs) && (forall k in 0..rsNewN(round) :: keyOf(round.ReSharingParameters.newParties.partyIDs[k]) % secpN != 0) && rsNew(round.ReSharingParameters) && round.started && 0 <= j && j <= rsNewN(round) && len(Vc) == round.ReSharingParameters.newThreshold + 1 && fresh(Vc) && fresh(newKs) && len(newKs) == j && cap(newKs) == rsNewN(round) && fresh(newBigXjs) && len(newBigXjs) == rsNewN(round) && fresh(paiProofCulprits) && newXi != nil && modQ != nil && !fresh(modQ) && val(modQ) == secpN && ecShareIntact(round) && i == round.ReSharingParameters.Parameters.partyID.Index
+//@   loop 6 invariant forall k in 0..len(Vc) :: (validPoint(Vc[k]) && Vc[k].curve == round.ReSharingParameters.Parameters.ec)
+//@   loop 7 invariant rs4NT(round, i) && wfIDs(round.ReSharingParameters.Parameters.parties.partyIDs) && wfIDs(round.ReSharingParameters.newParties.partyIDs) && (forall k in 0..rsNewN(round) :: keyOf(round.ReSharingParameters.newParties.partyIDs[k]) % secpN != 0) && rsNew(round.ReSharingParameters) && round.started && 0 <= j && j < rsNewN(round) && 1 <= c && c <= round.ReSharingParameters.newThreshold + 1 && len(Vc) == round.ReSharingParameters.newThreshold + 1 && fresh(Vc) && fresh(newKs) && len(newKs) == j + 1 && cap(newKs) == rsNewN(round) && fresh(newBigXjs) && len(newBigXjs) == rsNewN(round) && fresh(paiProofCulprits) && newXi != nil && modQ != nil && !fresh(modQ) && val(modQ) == secpN && ecShareIntact(round) && i == round.ReSharingParameters.Parameters.partyID.Index
+//@   loop 7 invariant forall k in 0..len(Vc) :: (validPoint(Vc[k]) && Vc[k].curve == round.ReSharingParameters.Parameters.ec)
+//@   loop 7 invariant kj != nil && val(kj) == keyOf(Pj) && z != nil && val(z) >= 0 && val(z) % secpN != 0 && Pj != nil && Pj == round.ReSharingParameters.newParties.partyIDs[j] && validPoint(newBigXj) && newBigXj.curve == round.ReSharingParameters.Parameters.ec
+//@   loop 8 invariant rs4NT(round, i) && wfIDs(round.ReSharingParameters.Parameters.parties.partyIDs) && wfIDs(round.ReSharingParameters.newParties.partyIDs) && rsNew(round.ReSharingParameters) && round.started && ecShareIntact(round) && i == round.ReSharingParameters.Parameters.partyID.Index && Pi == round.ReSharingParameters.Parameters.partyID && (forall k in 0..rsNewN(round) :: (k != i ==> (round.save.NTildej[k] != nil && round.save.H1j[k] != nil && round.save.H2j[k] != nil)))
